@@ -126,6 +126,17 @@ def printSchemaTA (c : OptsA) (s : SchemaD) (apps : Apps) : Text :=
       (sortBy (·.name) s.types).map (printType s c apps)).filter (fun p => !p.isEmpty)
   if parts.isEmpty then [] else joinSep [10, 10] parts ++ [10]
 
+/-- `ASTSchemaPrinter.__call__` WITH the option `include_introspection` (Text level, as `SdlPrint.printSchemaX`): the
+    definitions of the specified directives (the library's order, NOT sorted) before the schema's own directives, the
+    introspection types sorted by name together with the schema's types.  Tied to the String model by proof
+    (`Props/C12_models.lean: printSchemaXTA_eq_printSchemaX`). -/
+def printSchemaXTA (c : OptsA) (intro : Bool) (b : SdlPrint.Builtins) (s : SchemaD) (apps : Apps) : Text :=
+  let parts := ((printSchemaDefinition s c apps ::
+      (if intro then b.specified else []).map (printDirectiveDefinition s c apps)) ++
+      (sortBy (·.name) s.directives).map (printDirectiveDefinition s c apps) ++
+      (sortBy (·.name) (s.types ++ (if intro then b.introspection else []))).map (printType s c apps)).filter (fun p => !p.isEmpty)
+  if parts.isEmpty then [] else joinSep [10, 10] parts ++ [10]
+
 /-! ### the document the printed text denotes -/
 
 def argToDefA (s : SchemaD) (c : OptsA) (apps : Apps) (path : String) (a : ArgD) : InputValDef :=
